@@ -38,11 +38,13 @@ func (r *RegionScatterer) VerifScatterCounters() []string {
 // VerifScatterRestore replaces the history counters by the given ones (the format of
 // VerifScatterCounters), using the scatterer's own constructors and Put.
 func (r *RegionScatterer) VerifScatterRestore(counters []string) {
-	r.ordinaryEngine = newEngineContext(r.ctx, r.ordinaryEngine.filters[:len(r.ordinaryEngine.filters)-1]...)
-	old := r.specialEngines
-	r.specialEngines = make(map[string]engineContext)
-	for engine, ctx := range old {
-		r.specialEngines[engine] = newEngineContext(r.ctx, ctx.filters[:len(ctx.filters)-1]...)
+	// fresh counter tables in the existing engine contexts (their filter lists stay as they are)
+	r.ordinaryEngine.selectedPeer = newSelectedStores(r.ctx)
+	r.ordinaryEngine.selectedLeader = newSelectedStores(r.ctx)
+	for engine, ctx := range r.specialEngines {
+		ctx.selectedPeer = newSelectedStores(r.ctx)
+		ctx.selectedLeader = newSelectedStores(r.ctx)
+		r.specialEngines[engine] = ctx
 	}
 	for _, c := range counters {
 		var engine, kind, group string
